@@ -128,6 +128,7 @@ def gen_plan(rng):
     cfg["features"] = sorted(feats)
     cfg["fail_call_rate"] = rng.choice([0.0, 0.15, 0.4])
     cfg["mut_rate"] = rng.choice([0.15, 0.3, 0.5])
+    cfg["intr_rate"] = rng.choice([0.0, 0.0, 0.1, 0.25])
     steps = []
     progs = []      # {"id", "params", "array_params", "template": maybe}
     npool = rng.randint(2, 5)
@@ -257,7 +258,30 @@ def gen_plan(rng):
             steps.append({"op": "deepcopy", "obj": p["id"], "out": oid})
             objs.append({"id": oid, "params": p["params"], "array_params": p["array_params"],
                          "kind": "program", "derived": None})
+    for st in steps:
+        if st["op"] in ("call", "digraph", "match", "dumps") and rng.random() < cfg["intr_rate"]:
+            st["fault"] = {"kind": "intr", "exc": rng.choice(["MemoryError", "KeyboardInterrupt"]),
+                           "frac": rng.random()}
     return {"prop": PROP, "steps": steps, "cfg": cfg}
+
+
+def prepare(plan, ctx):
+    """Resolve interruption instants of read-only operations by a counting dry run."""
+    need = [i for i, s in enumerate(plan["steps"])
+            if s.get("fault", {}).get("kind") == "intr" and "at" not in s["fault"]]
+    if not need:
+        return plan
+    dry = copy.deepcopy(plan["steps"])
+    for i in need:
+        dry[i]["fault"] = {"kind": "count"}
+    evs = fork_run(child.run_plan, dry, ctx["root"], ctx["scratch"], observe="none")
+    by_i = {e["i"]: e for e in evs}
+    for i in need:
+        n = by_i.get(i, {}).get("lines") or 0
+        f = plan["steps"][i]["fault"]
+        f["at"] = 1 + int(f.pop("frac", 0.5) * n) if n else 1
+        f["n_dry"] = n
+    return plan
 
 
 def run(plan, ctx):
@@ -289,6 +313,11 @@ def run(plan, ctx):
         objs = ev.get("objs", {})
         bump("steps")
         bump("op:" + op)
+        if st.get("fault", {}).get("kind") == "intr":
+            bump("fault_configured:interrupt_in_" + op)
+            if ev.get("fired"):
+                bump("fault_fired:interrupt_in_" + op)
+                bump("intr_where:" + str(ev.get("where", "?")).split(":")[0])
         if op == "call" and st.get("mode") in ("missing", "baddim"):
             bump("fault_configured:failing_call_" + st["mode"])
             if not ev.get("ok", True):
@@ -327,7 +356,7 @@ def run(plan, ctx):
                 bump("probe:digraph_on_argless_program")
             operands = [x for x in (st.get("obj"), st.get("t"), st.get("p")) if x]
             if op in ("call", "digraph", "match", "dumps", "attrs", "iter", "deepcopy") and \
-                    operands and all(x in model for x in operands):
+                    operands and all(x in model for x in operands) and not ev.get("fired"):
                 # R4: what a read-only operation returns depends only on the content of its
                 # operands (and the values passed) - equal programs answer equal operations
                 # equally, whatever read-only or failed operations either has been through
@@ -377,7 +406,7 @@ def run(plan, ctx):
                     bump("probe:match_failed_after_graphs_built")
             if op == "digraph" and ev.get("ok") and st.get("out"):
                 graphs_of.setdefault(st["obj"], set()).add(st["out"])
-            if op == "dumps":
+            if op == "dumps" and not ev.get("fired"):
                 want = model.get(st["obj"])
                 if want is not None:
                     if ev.get("ok"):
